@@ -5,6 +5,11 @@
 
 #include <algorithm>
 #include <cerrno>
+#include <cstdarg>
+#include <cstdio>
+#include <dirent.h>
+#include <sys/stat.h>
+#include <vector>
 #include <cstdlib>
 #include <cstring>
 #include <new>
@@ -320,12 +325,69 @@ void sink_reset(const std::string& name)
         g_sinks->erase(name);
 }
 
-// --- sim:// input for parse_XML_file ---
-static int in_match(const char* uri) { return uri && std::strncmp(uri, "sim://", 6) == 0; }
+// --- the simulated input file of parse_XML_file ---
+static std::string g_sim_dir, g_sim_in_path;
+const std::string& sim_dir()
+{
+    if (g_sim_dir.empty()) {
+        const char* d = getenv("UTAPSIM_DIR");
+        g_sim_dir = d ? d : "/tmp/utapsim.unset";
+    }
+    return g_sim_dir;
+}
+void sim_dir_create()
+{
+    char buf[96];
+    const char* base = access("/dev/shm", W_OK) == 0 ? "/dev/shm" : "/tmp";
+    snprintf(buf, sizeof buf, "%s/utapsim.%07d", base, (int)getpid());
+    ::mkdir(buf, 0700);
+    setenv("UTAPSIM_DIR", buf, 1);
+    g_sim_dir = buf;
+}
+void sim_dir_remove()
+{
+    if (g_sim_dir.empty())
+        return;
+    if (DIR* d = opendir(g_sim_dir.c_str())) {
+        while (dirent* e = readdir(d)) {
+            if (e->d_name[0] == '.' && (e->d_name[1] == 0 || (e->d_name[1] == '.' && e->d_name[2] == 0)))
+                continue;
+            ::unlink((g_sim_dir + "/" + e->d_name).c_str());
+        }
+        closedir(d);
+    }
+    ::rmdir(g_sim_dir.c_str());
+}
+const std::string& sim_in_path()
+{
+    if (g_sim_in_path.empty()) {
+        char buf[32];
+        snprintf(buf, sizeof buf, "/in.%07d.xml", (int)getpid());  // fixed width: the same allocation sizes in every process
+        g_sim_in_path = sim_dir() + buf;
+    }
+    return g_sim_in_path;
+}
+void sim_in_publish(const std::string& bytes)
+{
+    store_put("in.xml", bytes);
+    int fd = (int)syscall(SYS_openat, AT_FDCWD, sim_in_path().c_str(), O_WRONLY | O_CREAT | O_TRUNC, 0600);
+    if (fd >= 0) {
+        size_t off = 0;
+        while (off < bytes.size()) {
+            long w = syscall(SYS_write, fd, bytes.data() + off, bytes.size() - off);
+            if (w <= 0)
+                break;
+            off += (size_t)w;
+        }
+        syscall(SYS_close, fd);
+    }
+}
+static int in_match(const char* uri) { return uri && !g_sim_in_path.empty() && g_sim_in_path == uri; }
 static void* in_open(const char* uri)
 {
+    (void)uri;
     g_in_seam = true;
-    const std::string* bytes = store_get(uri + 6);
+    const std::string* bytes = store_get("in.xml");
     Source* s = nullptr;
     if (bytes) {
         s = new Source;
@@ -445,6 +507,61 @@ void close_sim_fd(int fd)
     ::close(fd);
 }
 
+// --- descriptors the library opens itself ---
+static int g_fd_budget = -1;
+static std::vector<int>* g_lib_fds = nullptr;  // opened through the interposed open during calls
+void fd_budget_set(int budget) { g_fd_budget = budget; }
+int fd_leaked()
+{
+    int n = 0;
+    if (g_lib_fds)
+        for (int fd : *g_lib_fds)
+            if (fcntl(fd, F_GETFD) != -1)
+                ++n;
+    return n;
+}
+void sim_in_retire()
+{
+    syscall(SYS_unlink, sim_in_path().c_str());
+    // the source of a descriptor the library opened on the simulated file is gone with the call; the descriptor itself,
+    // if the library left it open, stays open (and counts against the budget) like any leaked descriptor
+    if (g_simfd >= 0 && g_lib_fds && std::find(g_lib_fds->begin(), g_lib_fds->end(), g_simfd) != g_lib_fds->end()) {
+        g_simfd = -1;
+        delete g_simfd_src;
+        g_simfd_src = nullptr;
+    }
+}
+/** open(2) seen during a library call: the simulated input file becomes a simulated descriptor */
+static int lib_open(const char* path, int flags, mode_t mode)
+{
+    if (g_op.in_call && !g_in_seam && path && !g_sim_in_path.empty() && g_sim_in_path == path && (flags & O_ACCMODE) == O_RDONLY) {
+        g_in_seam = true;
+        int fd = -1;
+        if (g_fd_budget >= 0 && fd_leaked() >= g_fd_budget) {
+            errno = EMFILE;
+            ++g_op.emfile;
+        } else if (const std::string* bytes = store_get("in.xml")) {
+            if (g_simfd >= 0) {  // an earlier descriptor on the file is still registered: it keeps its source no longer
+                g_simfd = -1;
+                delete g_simfd_src;
+                g_simfd_src = nullptr;
+            }
+            fd = open_sim_fd(*bytes, g_next_file_sched);
+            ++g_op.lib_opens;
+            if (fd >= 0) {
+                if (!g_lib_fds)
+                    g_lib_fds = new std::vector<int>;
+                if (std::find(g_lib_fds->begin(), g_lib_fds->end(), fd) == g_lib_fds->end())
+                    g_lib_fds->push_back(fd);
+            }
+        } else
+            errno = ENOENT;
+        g_in_seam = false;
+        return fd;
+    }
+    return (int)syscall(SYS_openat, AT_FDCWD, path, flags, mode);
+}
+
 // --- FILE* via fopencookie ---
 static ssize_t cookie_read(void* cookie, char* buf, size_t size)
 {
@@ -561,6 +678,30 @@ void operator delete[](void* p, const std::nothrow_t&) noexcept { sim::sim_free(
 
 extern "C" {
 
+// open(2): the simulated input file, when the library opens it by itself, becomes a simulated descriptor.
+int open(const char* path, int flags, ...)
+{
+    mode_t mode = 0;
+    if (flags & (O_CREAT | O_TMPFILE)) {
+        va_list ap;
+        va_start(ap, flags);
+        mode = (mode_t)va_arg(ap, int);
+        va_end(ap);
+    }
+    return sim::lib_open(path, flags, mode);
+}
+int open64(const char* path, int flags, ...)
+{
+    mode_t mode = 0;
+    if (flags & (O_CREAT | O_TMPFILE)) {
+        va_list ap;
+        va_start(ap, flags);
+        mode = (mode_t)va_arg(ap, int);
+        va_end(ap);
+    }
+    return sim::lib_open(path, flags | O_LARGEFILE, mode);
+}
+
 // read(2): descriptors registered as simulated are served from SimStore, everything else is forwarded.
 ssize_t read(int fd, void* buf, size_t n)
 {
@@ -583,6 +724,11 @@ void* dlopen(const char* file, int mode)
         fprintf(stderr, "dlopen(%s) in_call=%d\n", file, (int)sim::g_op.in_call);
     ++sim::g_op.dlopen_refused;
     ++sim::g_stats.dlopen_refused;
-    return real ? real("/nonexistent/utapsim-refuses-dlopen.so", mode) : nullptr;
+    // the refusal names the path that was asked for, so that a diagnostic built from dlerror() shows where the library
+    // looked (relative to the working directory of the call, for instance)
+    // (no allocation here: an injected allocation failure must only ever hit the library)
+    char refused[4200];
+    snprintf(refused, sizeof refused, "/nonexistent/utapsim-refuses-dlopen%s%.4000s", file[0] == '/' ? "" : "/", file);
+    return real ? real(refused, mode) : nullptr;
 }
 }
